@@ -92,7 +92,8 @@ def run(ck, fb, fbd):
             else:
                 second = a[2].replace(" ", "")
                 init = a[3].replace(" ", "")
-                ok = "+1" in first and "+1" in second and "*data()" in init and "_rhs.data()" in init and "_rhs" in second
+                pn0 = f.d["params"][0]["n"] if f.d["params"] else "?"
+                ok = "+1" in first and "+1" in second and "*data()" in init and (pn0 + ".data()") in init and pn0 in second
                 desc = "inner_product(%s, %s, %s, init=%s)" % (a[0][:25], a[1][:25], a[2][:25], a[3][:40])
             (ck.ok if ok else lambda r, w, t: ck.violate(r, w, t, "C19.reduce:%s" % f.name))("C19.reduce", f.loc(x), "%s::%s: %s skips exactly the element(s) that form the initial value" % (f.cls.replace("OpenVolumeMesh::Geometry::", ""), f.name if not f.d.get("op") else "operator" + f.d["op"], desc))
     ck.floor("reduction_sites", nred, 8)
@@ -130,7 +131,7 @@ def run(ck, fb, fbd):
             ok = len(body_ops) == 1 and body_ops[0][0] == op
             if ok:
                 l, r = lit_or_var_index(body_ops[0][1]), lit_or_var_index(body_ops[0][2])
-                ok = l is not None and r is not None and l[1] == r[1] and "_rhs" in r[0] and "_rhs" not in l[0]
+                ok = l is not None and r is not None and l[1] == r[1] and p["n"] in r[0] and p["n"] not in l[0]
                 loops = f.loops()
                 dim = f.cls.rstrip(">").split(",")[-1].strip()
                 cond = estr(f.resolve(f.term(loops[0][0])["cond"])) if loops and f.term(loops[0][0]) and f.term(loops[0][0]).get("cond") else ""
